@@ -156,6 +156,7 @@ class _ParallelMapperIter(Iterator[T]):
         self._sem = threading.BoundedSemaphore(value=self._max_tasks)
 
         self._done = False
+        self._fast_forwarding = False
 
         self._stop = threading.Event()
         self._mp_stop = mp_context.Event()
@@ -224,6 +225,7 @@ class _ParallelMapperIter(Iterator[T]):
         time.sleep(0.01)
         self._snapshot = self._snapshot_store.get_initial_snapshot(thread=self._read_thread, timeout=ACK_TIMEOUT)
 
+        self._fast_forwarding = True
         for i in range(fast_forward):
             try:
                 next(self)
@@ -232,6 +234,7 @@ class _ParallelMapperIter(Iterator[T]):
                     f"Tried to fast-forward {fast_forward} items during init but "
                     f"hit StopIteration after {i} items, this is likely a bug or malformed state_dict"
                 )
+        self._fast_forwarding = False
 
     def __iter__(self) -> Iterator[T]:
         return self
@@ -268,6 +271,9 @@ class _ParallelMapperIter(Iterator[T]):
                     # must not replay the items that follow it
                     self._steps_since_snapshot += 1
                     self._maybe_update_snapshot(idx)
+                    if self._fast_forwarding:
+                        # replaying an item consumed before the checkpoint: its error was already delivered
+                        return item  # type: ignore[return-value]
                 item.reraise()
 
             self._steps_since_snapshot += 1
